@@ -24,7 +24,7 @@ CHECKS = {
          "The 'default' verifier re-installed through set_verifier is the harness's reference verifier (the crate does not export its own).",
          "DESIGN.md section 3, C10"),
  "C02": ("proptest + exhaustive boundary windows of single-access probes against an exact address oracle, fork-isolated with PROT_NONE guard pages and canary arenas",
-         "Each probe is one access instruction whose effective address sits at a generated distance (-9..+9) from a boundary of packet, metadata buffer, registered range or stack, or is null / top-of-address-space / wrapping / far; the child process knows the real addresses and decides allowed <=> inside exactly one region, then checks Ok + exact value / stored bytes, or Err + no byte changed. Thorough enumerates every (boundary, delta, kind, width) for fixed layouts. Probes may be preceded, in the same basic block, by a narrower access at the same address, by in-bounds loads through the same register at other offsets, or by an in-bounds access after which the base register is redefined (lddw, mov, add, stack reload, helper result, ldabs); layouts include ranges 1-7 bytes apart and a range covering all others in every registration order. Layouts also cover the raw and no-data VM structs and a registered range that encloses the packet; one probe in eight runs under an accept-all verifier and moves r10 just before the access. Exploration (exhaustive within the windows in the thorough tier).",
+         "Each probe is one access instruction whose effective address sits at a generated distance (-9..+9) from a boundary of packet, metadata buffer, registered range or stack, or is null / top-of-address-space / wrapping / far; the child process knows the real addresses and decides allowed <=> inside exactly one region, then checks Ok + exact value / stored bytes, or Err + no byte changed. Thorough enumerates every (boundary, delta, kind, width) for fixed layouts. Probes may be preceded, in the same basic block, by a narrower access at the same address, by in-bounds loads through the same register at other offsets, or by an in-bounds access after which the base register is redefined (lddw, mov, add, stack reload, helper result, ldabs); layouts include ranges 1-7 bytes apart and a range covering all others in every registration order. 240 enumerated packet loads on an empty packet (dangling slice and empty slice at a mapped address) on the raw, metadata and fixed-metadata VM structs must be refused. Layouts also cover the raw and no-data VM structs and a registered range that encloses the packet; one probe in eight runs under an accept-all verifier and moves r10 just before the access. Exploration (exhaustive within the windows in the thorough tier).",
          "Stack boundaries are probed r10-relative (half of the probes through r10 itself, half through a copy); registered ranges are kept from touching other regions.",
          "DESIGN.md section 3, C02"),
  "C07": ("proptest over generated call graphs against the reference model's C07 semantics, on the interpreter (value and error clauses) and the JIT (value clauses)",
@@ -32,7 +32,7 @@ CHECKS = {
          "Error clauses only on the interpreter (the JIT has no run-time error channel).",
          "DESIGN.md section 3, C07"),
  "C11": ("proptest + exhaustive boundary windows of single-access probes compiled with Cranelift, one forked child per probe, SIGILL-handler oracle",
-         "Same probe generator as C02 on the regions Cranelift knows; in bounds => exact value / stored bytes; out of bounds => the child must die in the trap (SIGILL) with every byte of the arenas unchanged (checked inside the signal handler); a normal return, SIGSEGV or changed byte is a violation. Probes may be preceded, in the same basic block, by a narrower access at the same address, by in-bounds loads through the same register at other offsets, or by an in-bounds access after which the base register is redefined (lddw, mov, add, stack reload, helper result, ldabs); packet and metadata buffer may be 1-7 bytes apart. Probes also run on the raw and no-data VM structs; one probe in eight is loaded under an accept-all verifier and moves r10 just before the access (the stack region does not move). Exploration (exhaustive within the windows in the thorough tier).",
+         "Same probe generator as C02 on the regions Cranelift knows; in bounds => exact value / stored bytes; out of bounds => the child must die in the trap (SIGILL) with every byte of the arenas unchanged (checked inside the signal handler); a normal return, SIGSEGV or changed byte is a violation. 240 enumerated packet loads on an empty packet (dangling slice and empty slice at a mapped address) on the raw, metadata and fixed-metadata VM structs must trap. Half of the stack probes use r10 itself as the base register. Probes may be preceded, in the same basic block, by a narrower access at the same address, by in-bounds loads through the same register at other offsets, or by an in-bounds access after which the base register is redefined (lddw, mov, add, stack reload, helper result, ldabs); packet and metadata buffer may be 1-7 bytes apart. Probes also run on the raw and no-data VM structs; one probe in eight is loaded under an accept-all verifier and moves r10 just before the access (the stack region does not move). Exploration (exhaustive within the windows in the thorough tier).",
          "A trap surfaces as SIGILL; guard pages turn performed out-of-region reads into faults.",
          "DESIGN.md section 3, C11"),
  "C05": ("proptest crash oracle over verifier-accepted near-valid byte strings and mutated structured programs, interpreted in a forked child under catch_unwind with an instruction budget; thorough tier adds a coverage-guided libFuzzer campaign (cargo-fuzz, ASan) with the same oracle inside the target",
